@@ -798,7 +798,11 @@ class Server:
     ) -> list[BuildSource]:
         """Return the direct imports of module not included in seen."""
         state = graph[module[0]]
-        return [BuildSource(graph[dep].path, dep, followed=True) for dep in state.dependencies]
+        return [
+            BuildSource(graph[dep].path, dep, followed=True)
+            for dep in state.dependencies
+            if dep in graph
+        ]
 
     def find_added_suppressed(
         self, graph: mypy.build.Graph, seen: set[str], search_paths: SearchPaths
